@@ -85,6 +85,11 @@ def array_schemas(elems):
     out.append({"type": "array", "prefixItems": [{}, {"type": "integer", "minimum": 0}]})
     out.append({"type": "array", "prefixItems": [{"anyOf": [{}, {"type": "string"}]}, {"type": "string"}], "items": False})
     out.append({"prefixItems": [{"type": "string"}, {}, {"type": "integer"}]})
+    # uniqueness of items that are arrays / objects themselves (not hashable once converted)
+    out.append({"type": "array", "uniqueItems": True, "items": {"type": "array", "items": {"type": "integer"}}})
+    out.append({"type": "array", "uniqueItems": True, "items": {"type": "object", "properties": {"a": {"type": "integer"}}}})
+    out.append({"type": "array", "uniqueItems": True})
+    out.append({"uniqueItems": True, "items": {"type": "object"}})
     return out
 
 
@@ -175,6 +180,8 @@ INSTANCES = [None, True, False, 0, 1, -1, 2, 3, 4, 10, 11, 1.5, 2.0, -0.5, "", "
              "2020-01-02", "2020-01-02T03:04:05Z", "12:00:00", "12345678-1234-5678-1234-567812345678", [], [1], [1, 2], [1, 1],
              [1, 2, 3], ["a"], [1, "a"], ["a", 1], [1, "a", 2], [1, "a", "b"], [None], [-1], [[1]], [[1, "a"]], [{"a": 1}], {},
              [5, "a"], [None, 5, "a"], [1, -1, "a"], ["a", None, 1], ["a", "b"], [{}, 0],
+             [[1, 2], [3], [1, 2]], [[1], [2]], [[1], [1]], [{"a": 1}, {"a": 1}], [{"a": 1}, {"a": 2}], [[1, 2], 3, [1, 2]], [1, [1], 1],
+             [{"a": 1}, 2, {"a": 1}],
              {"a": 1}, {"a": "x"}, {"a": -1}, {"a": None}, {"a": 1, "b": 2}, {"b": 2}, {"a-b": 1}, {"a": 1, "a-b": 2}, {"class": 1},
              {"class": 1, "items": 2}, {"items": 1}, {"items": [1]}, {"keys": 1, "update": 2}, {"1x": 1}, {"_p": 1}, {"a": 1, "_p": 2},
              {"a": 1, "zz": 2}, {"a": 1, "zz": "x"}, {"zz": 2}, {"a": [1]}, {"a": [1, "x"]}, {"a": {"a": 1}}, {"a": {"a": "x"}},
